@@ -56,7 +56,8 @@ def c15(ctx):
             st = lv_states[j - 1]
             rel = [f'l{d}' for d in range(j + 1, start + 1)]
             texts = ignore_texts(rel)
-            text = texts[ign_idx % len(texts)] if j == ign_level else r.choice(['', 'DATA other 0\n'])
+            # (levels that IGNORE nothing may still say anything else, e.g. carry a TIMESTAMP like the top-level Manifest of a repository kept inside a larger tree)
+            text = texts[ign_idx % len(texts)] if j == ign_level else r.choice(['', 'DATA other 0\n', 'TIMESTAMP 2020-01-01T00:00:00Z\n', 'TIMESTAMP 2021-02-03T04:05:06Z\nDATA other 0\n'])
             files = {}
             if st in ('plain', 'both'):
                 files['Manifest'] = ['text', text]
